@@ -1,10 +1,14 @@
 ﻿from nsl import Visitor
 
 
-def ValidateSwizzleMask(mask):
+def ValidateSwizzleMask(mask, componentCount=4):
     from .. import Utility, Errors
 
     if any([m not in "xyzwrgba" for m in mask]):
+        Errors.ERROR_INVALID_SWIZZLE_MASK.Raise()
+
+    # Every selector must name a component the swizzled type actually has
+    if any(["xyzwrgba".index(m) % 4 >= componentCount for m in mask]):
         Errors.ERROR_INVALID_SWIZZLE_MASK.Raise()
 
     if Utility.ContainsAnyOf(mask, "xyzw") and Utility.ContainsAnyOf(
@@ -28,9 +32,20 @@ class ValidateSwizzleMaskVisitor(Visitor.DefaultVisitor):
 
         t = expr.GetParent().GetType()
 
-        with nsl.Errors.CompileExceptionToErrorHandler(self.errorHandler):
+        def OnError():
+            self.valid = False
+
+        with nsl.Errors.CompileExceptionToErrorHandler(
+            self.errorHandler, OnError
+        ):
             if t.IsPrimitive() and (t.IsVector() or t.IsScalar()):
-                ValidateSwizzleMask(expr.GetMember())
+                componentCount = t.GetSize()[0] if t.IsVector() else 1
+                ValidateSwizzleMask(
+                    expr.GetMember().GetName(), componentCount
+                )
+
+        # The swizzled expression may contain further swizzles (v.xy.x)
+        expr.AcceptVisitor(self)
 
 
 def GetPass():
